@@ -34,8 +34,28 @@ func routingScenario(s *Sim, params map[string]string) {
 	}
 	nb := t.Range("cfg", 2, 5)
 	hetero := t.Intn("cfg", 3) != 0
+	// drawTable gives a broker a version table of its own (stream: cfg at
+	// set-up, fault when a broker comes back after an upgrade)
+	var drawTable func(b *Broker, stream string)
 	for i := 1; i <= nb; i++ {
 		b := cl.AddBroker(int32(i), "")
+		if hetero {
+			drawTable = func(b *Broker, st string) {
+				for _, api := range []int16{0, 1, 2, 3, 8, 9, 10, 11, 12, 13, 14, 19, 20, 22} {
+					a := rc.Lookup(api)
+					lo, hi := a.MinVersion, a.MaxVersion
+					if t.Intn(st, 3) == 0 {
+						hi = int16(t.Range(st, int(lo), int(hi)))
+					}
+					if t.Intn(st, 4) == 0 {
+						lo = int16(t.Range(st, int(lo), int(hi)))
+					}
+					b.Versions[api] = [2]int16{lo, hi}
+				}
+				b.Versions[18] = [2]int16{0, int16(t.Range(st, 0, 3))}
+				b.Versions[3] = [2]int16{int16(t.Range(st, 0, 1)), int16(t.Range(st, 1, 8))}
+			}
+		}
 		if hetero {
 			// heterogeneous tables: every routed api gets its own [min,max] per broker
 			for _, api := range []int16{0, 1, 2, 3, 8, 9, 10, 11, 12, 13, 14, 19, 20, 22} {
@@ -81,18 +101,49 @@ func routingScenario(s *Sim, params map[string]string) {
 	}
 	ttl := Pick(t, "cfg", 200*time.Millisecond, time.Second, 6*time.Second)
 	tr := &kafka.Transport{Dial: n.Dialer("router"), ClientID: "router", MetadataTTL: ttl, DialTimeout: 2 * time.Second, IdleTimeout: 30 * time.Second}
-	client := &kafka.Client{Addr: kafka.TCP(cl.Brokers[0].Addr()), Transport: tr, Timeout: 5 * time.Second}
+	// bootstrap: one address, or several (the control connection then fails
+	// over to the next address when a broker goes away)
+	boot := []string{cl.Brokers[0].Addr()}
+	if t.Intn("cfg", 2) == 0 {
+		boot = nil
+		for _, b := range cl.Brokers {
+			boot = append(boot, b.Addr())
+		}
+		for i := len(boot) - 1; i > 0; i-- {
+			j := t.Intn("cfg", i+1)
+			boot[i], boot[j] = boot[j], boot[i]
+		}
+		boot = boot[:t.Range("cfg", 2, len(boot))]
+	}
+	client := &kafka.Client{Addr: kafka.TCP(boot...), Transport: tr, Timeout: 5 * time.Second}
 
+	restarts := false // some broker has been restarted in this run
 	// metadata snapshots delivered to the client (from the journal, at the end)
 	var moves []time.Duration
 	nmoves := t.Range("cfg", 0, 5)
 	endAt := time.Duration(t.Range("cfg", 2, 12)) * time.Second
 	for i := 0; i < nmoves; i++ {
 		at := time.Duration(t.Range("fault", 100, int(endAt/time.Millisecond))) * time.Millisecond
-		kind := t.Intn("fault", 4)
+		kind := t.Intn("fault", 6)
 		s.After(at, "cluster-change", func() {
 			moves = append(moves, s.Now())
 			switch kind {
+			case 4, 5:
+				// a broker is restarted in place (same id and address) and comes
+				// back speaking a different set of versions: a rolling upgrade
+				b := cl.Broker(int32(1 + t.Intn("fault", nb)))
+				if !b.Up {
+					break
+				}
+				restarts = true
+				cl.SetBrokerUp(b, false)
+				down := time.Duration(t.Range("fault", 20, 600)) * time.Millisecond
+				s.After(down, "broker-back", func() {
+					if drawTable != nil {
+						drawTable(b, "fault")
+					}
+					cl.SetBrokerUp(b, true)
+				})
 			case 0, 1:
 				tn := topics[t.Intn("fault", len(topics))]
 				ps := cl.Topics[tn].Parts
@@ -196,7 +247,10 @@ func routingScenario(s *Sim, params map[string]string) {
 							}
 							for _, pp := range tp.Partitions {
 								// the leader reported must be a leader this partition has had
-								if pp.Leader.ID < 1 || pp.Leader.ID > nb {
+								// (while a broker is being restarted it is not in the broker
+								// list of the metadata response: the library then has no
+								// broker to report for its partitions)
+								if (pp.Leader.ID < 1 || pp.Leader.ID > nb) && !restarts {
 									s.Fail("C12", "R4-metadata-filter", "Client.Metadata(%s) reports leader %d for partition %d", tn, pp.Leader.ID, pp.ID)
 								}
 							}
@@ -308,7 +362,7 @@ func routingOracle(s *Sim, cl *Cluster, ttl, maxLat time.Duration, moves []time.
 		// R2: highest mutually supported version
 		lib := protocol.ApiKey(k)
 		lmin, lmax := lib.MinVersion(), lib.MaxVersion()
-		br := b.Versions[k]
+		br := r.BrokerRange
 		lo, hi := lmin, lmax
 		if br[0] > lo {
 			lo = br[0]
@@ -382,7 +436,10 @@ func routingOracle(s *Sim, cl *Cluster, ttl, maxLat time.Duration, moves []time.
 		// plus a round trip (and the cluster answered metadata without faults),
 		// requests for its partition must reach it
 		if leaderOf != nil {
-			if p := leaderOf(); p != nil && p.Leader != b.ID && r.At-p.LeaderSince > ttl+12*maxLat+100*time.Millisecond && cl.F.ErrorCode == 0 {
+			// (a client that has never received any metadata has nothing that
+			// designates a broker: it falls back to its bootstrap address)
+			hadMetadata := len(snaps) > 0 && snaps[0].at <= r.At
+			if p := leaderOf(); p != nil && p.Leader != b.ID && hadMetadata && r.At-p.LeaderSince > ttl+12*maxLat+100*time.Millisecond && cl.F.ErrorCode == 0 {
 				s.Fail("C12", "R3-stale-leader", "%s request #%d arrived at broker %d at %v, but broker %d has been %s since %v: more than MetadataTTL (%v) plus a round trip ago", r.API.Name, r.Idx, b.ID, r.At, p.Leader, what, p.LeaderSince, ttl)
 			}
 		}
